@@ -4,6 +4,7 @@ CONSTANTS
   MaxRoot = 1
   MaxMid = 0
   RootTargets = {"a", "b", "math"}
+  MidTargets = {"a"}
   Spellings = {"plain", "us", "ext", "dir"}
   CfgPool = "full"
   ListPool = "basic"
